@@ -252,7 +252,7 @@ type hop struct {
 var journal *c07x.OpLog
 
 var opFunc = map[string]string{"hb": "processRegionHeartbeat", "begin": "processRegionHeartbeat", "step": "processRegionHeartbeat",
-	"run": "processRegionHeartbeat", "flush": "Storage.Flush", "snap": "ScanRegions+LoadRegion", "saveraw": "Storage.SaveRegion"}
+	"run": "processRegionHeartbeat", "flush": "Storage.Flush", "snap": "ScanRegions+LoadRegion", "saveraw": "Storage.SaveRegion", "reload": "Storage.LoadRegions+CheckAndPutLoadedRegion"}
 
 var fillers = map[int][]*metapb.Peer{}
 
@@ -316,6 +316,8 @@ func (o hop) coq() string {
 		return "OFlush"
 	case "saveraw":
 		return "OSaveRaw " + o.P.Coq()
+	case "reload":
+		return "OReload"
 	case "snap":
 		xs := make([]string, len(o.IDs))
 		for i, v := range o.IDs {
@@ -435,6 +437,24 @@ func (w *world) exec(o *hop) string {
 		if err := w.reader.SaveRegion(m); err != nil {
 			panic(err)
 		}
+		return "HoUnit"
+	case "reload":
+		// PD restarts: a fresh BasicCluster filled from storage the way RaftCluster.LoadClusterInfo does it (regions without
+		// leader, term and statistics); only when no heartbeat is in flight
+		for _, th := range w.threads {
+			if th.atLock || th.atStore {
+				return "HoRes HBad"
+			}
+		}
+		nb := core.NewBasicCluster()
+		if err := w.reader.LoadRegions(func(region *core.RegionInfo) []*core.RegionInfo {
+			return nb.CheckAndPutLoadedRegion(region, w.reader.SaveRegion)
+		}); err != nil {
+			panic(err)
+		}
+		w.bc = nb
+		w.threads = map[int]*thread{}
+		w.main = w.facade(w.newStorage(w.base))
 		return "HoUnit"
 	case "flush":
 		if err := w.reader.Flush(); err != nil {
@@ -675,6 +695,11 @@ func genCase(r *rng.R, opt *config.PersistOptions, wb, enc bool, a c07x.Alphabet
 		if wb && r.Pct(12) {
 			g.step(hop{K: "flush"})
 		}
+		if !concurrent && r.Pct(6) { // PD restarts; delayed duplicates of earlier heartbeats keep arriving afterwards
+			g.step(hop{K: "flush"})
+			g.step(hop{K: "reload"})
+			c.tags["restart"]++
+		}
 	}
 	for t := 1; t <= 3; t++ { // drain
 		if busy[t] {
@@ -800,6 +825,38 @@ func displacedMemoryCase(opt *config.PersistOptions) hcase {
 	} {
 		g.step(hop{K: "hb", R: r})
 	}
+	return c
+}
+
+// a restart, then a delayed heartbeat: region 1 is reported with conf_ver 2 (three peers), then with conf_ver 3 (a peer removed);
+// PD restarts (the cache is reloaded from storage: regions without leader); the delayed conf_ver-2 heartbeat must still be
+// rejected against the loaded region, and so must an older version of a loaded neighbour.
+func reloadCase(opt *config.PersistOptions, wb bool) hcase {
+	c := hcase{WB: wb, tags: map[string]int{"directed:restart-then-delayed-heartbeat": 1}}
+	w := newWorld(wb, opt)
+	defer w.close()
+	g := &gen{r: rng.New(1), w: w, c: &c, ids: map[uint64]bool{}, last: time.Now()}
+	g.raw(hop{K: "snap"})
+	p3 := []c07x.Peer{{ID: 11, Store: 1}, {ID: 12, Store: 2}, {ID: 13, Store: 3}}
+	p2 := []c07x.Peer{{ID: 11, Store: 1}, {ID: 12, Store: 2}}
+	old1 := c07x.Region{ID: 1, Start: "a", End: "c", Peers: p3, Leader: 11, Size: 10, Ver: 1, ConfVer: 2, Term: 5, Stamp: 1}
+	new1 := c07x.Region{ID: 1, Start: "a", End: "c", Peers: p2, Leader: 11, Size: 10, Ver: 1, ConfVer: 3, Term: 5, Stamp: 2}
+	old2 := c07x.Region{ID: 2, Start: "c", End: "e", Peers: []c07x.Peer{{ID: 21, Store: 1}, {ID: 22, Store: 2}}, Leader: 21, Size: 10, Ver: 1, ConfVer: 1, Term: 5, Stamp: 3}
+	new2 := old2.Clone()
+	new2.Ver, new2.End, new2.Stamp = 2, "d", 4
+	for _, r := range []*c07x.Region{&old1, &new1, &old2, &new2} {
+		x := *r
+		g.step(hop{K: "hb", R: &x})
+	}
+	g.step(hop{K: "flush"})
+	g.step(hop{K: "reload"})
+	d1, d2 := old1.Clone(), old2.Clone()
+	g.step(hop{K: "hb", R: &d1}) // delayed: conf_ver 2 < 3
+	g.step(hop{K: "hb", R: &d2}) // delayed: version 1 < 2
+	n1 := new1.Clone()
+	n1.Stamp = 5
+	g.step(hop{K: "hb", R: &n1}) // the current report: accepted, the region has a leader again
+	g.step(hop{K: "flush"})
 	return c
 }
 
@@ -968,6 +1025,8 @@ func main() {
 		emit(autoFlushRegression(opt))
 		emit(overtakenSaveProbe(opt, false)) // direct backend only: a save into the write-back batch is not a kv write the harness can park
 		emit(termProbe(opt))
+		emit(reloadCase(opt, false))
+		emit(reloadCase(opt, true))
 		emit(termOnlyCase(opt))
 		emit(displacedMemoryCase(opt))
 		emit(checkThenPutCase(opt, false))
